@@ -71,7 +71,11 @@ func (e *vfRouteExec) enabled() []string {
 					}
 				}
 			}
-			if c != nil && !c.broken && !c.returned && settled && len(t.incoming) == 1 && t.idx-1 < len(sc.PlaceTNext) && sc.PlaceTNext[t.idx-1] != sc.PlaceT[t.idx-1] {
+			moves := t.idx-1 < len(sc.PlaceTNext) && sc.PlaceTNext[t.idx-1] != sc.PlaceT[t.idx-1]
+			if sc.OverlapInPlace > 0 {
+				moves = t.idx == sc.OverlapInPlace
+			}
+			if c != nil && !c.broken && !c.returned && settled && len(t.incoming) == 1 && moves {
 				out = append(out, fmt.Sprintf("reopenT:%d", t.idx))
 			}
 			if n := len(t.incoming); n >= 2 && !t.incoming[n-2].broken && !t.incoming[n-2].returned {
@@ -196,6 +200,17 @@ func (e *vfRouteExec) apply(a string) error {
 			return fmt.Errorf("action %s not enabled", a)
 		}
 		e.logf("T%d completes task %d", t.idx, id)
+	case "cleanbreakT":
+		// the target shard's stream breaks at a moment at which it holds nothing unconfirmed and nothing is on its way to
+		// it: not a fault in the sense of C04 (no task can be lost by it)
+		t := e.tgt[arg(1)-1]
+		if t.cur() == nil || len(t.cur().queue) > 0 {
+			return fmt.Errorf("action %s not enabled", a)
+		}
+		e.logf("T%d#%d stream breaks (nothing in flight)", t.idx, len(t.incoming)-1)
+		t.cur().breakNow()
+	case "awaitT":
+		// (micro scripts: a step whose precondition is that every older incarnation of the shard's stream has ended)
 	case "doneall":
 		// the target completes everything it has received so far (micro scripts)
 		ts := e.tgt[arg(1)-1].cur()
@@ -254,6 +269,19 @@ func (e *vfRouteExec) closingPhase(wait func(), K int) int {
 		}
 	}
 	for round := 1; round <= K; round++ {
+		// a stream that ended in the meantime (a break noticed late) is opened again, as its shard would
+		for _, t := range e.tgt {
+			if c := t.cur(); c == nil || c.returned || c.broken {
+				e.openTarget(t)
+				wait()
+			}
+		}
+		for _, s := range e.src {
+			if s.needsOpen() {
+				e.openSource(s)
+				wait()
+			}
+		}
 		for _, t := range e.tgt {
 			ts := t.cur()
 			for i := range ts.queue {
@@ -304,6 +332,23 @@ func (e *vfRouteExec) checkEnd(rounds int) {
 			st = append(st, fmt.Sprintf("goroutines waiting for a lock: %v", bl))
 		}
 		e.violate("C03", "final-ack-never-arrives", "after the fair closing phase (every target acknowledged everything, sources kept sending their watermark): "+strings.Join(st, "; "))
+	}
+	if rounds == 0 && e.faults > 0 {
+		// after stream breaks and reconnections too the fair closing phase (every stream up again, targets acknowledge
+		// what they hold, sources keep sending their watermark) ends with the final watermark acknowledged: which tasks
+		// were lost on the way is C04's subject, that the acknowledgements keep flowing is C03's
+		var st []string
+		for _, s := range e.src {
+			last := int64(-1)
+			if p := s.pull(); p != nil && len(p.acks) > 0 {
+				last = p.acks[len(p.acks)-1]
+			}
+			st = append(st, fmt.Sprintf("source %d: final high %d, last ack %d", s.idx, s.curHigh, last))
+		}
+		if bl := vrt.BlockedLockers(); len(bl) > 0 {
+			st = append(st, fmt.Sprintf("goroutines waiting for a lock: %v", bl))
+		}
+		e.violate("C03", "final-ack-never-arrives-after-reconnects", "after the fair closing phase that follows the stream breaks: "+strings.Join(st, "; "))
 	}
 	if e.faults == 0 {
 		for _, r := range e.returned {
@@ -561,6 +606,13 @@ func vfScenarios(tier string, faults bool) []*vfRouteScenario {
 		{IDs: []int64{11}, Tgt: []int{1}, High: 12},
 	}}, 0, 3)
 	out[len(out)-1].Proxies, out[len(out)-1].PlaceT, out[len(out)-1].PlaceS, out[len(out)-1].LatePeers = 2, []int{0, 1}, []int{0}, true
+	// one instance: target shard 2 opens a new stream while its old one is still alive (the new sender registers before
+	// the old one has deregistered), then the old stream ends; the shard holds nothing unconfirmed at that moment
+	add("1x2-target-reconnects-in-place", 1, 2, [][]vfBatch{{
+		{IDs: []int64{10}, Tgt: []int{2}, High: 11},
+		{IDs: []int64{11}, Tgt: []int{2}, High: 12},
+	}}, 0, 0)
+	out[len(out)-1].Overlap, out[len(out)-1].OverlapInPlace = true, 2
 	// three instances: target shard 2 reconnects to another instance (n3) while its old stream on n2 is still alive
 	// (both instances claim the shard for a while), then the old stream ends
 	add("1x2-target-moves-between-proxies", 1, 2, [][]vfBatch{{
